@@ -466,6 +466,64 @@ def _(v):
 
 
 # ---------------------------------------------------------------------------- density from concentration (inverse helper), any forward correlation
+def _fixed_point_iteration_invariant(relation, atol, maxiter, num=lambda x: x):
+    """the loop invariant of the fixed-point iteration rho <- rho_cb(conc*M/rho), stated over the ROLES of the loop-carried variables, not over
+    what the code calls them (a renaming of locals, or a for-loop over the evaluation number instead of a counter bumped by hand, is no change of
+    behaviour).  The roles are read off the state on entry (env["@carried"]: the names bound before the loop and rebound in it):
+      step     the carried number that is infinite on entry ('no step taken yet' exceeds every tolerance); afterwards the last change of the density
+      density  the other carried non-integer number (the current iterate; finite on entry)
+      count    evaluations of the forward correlation so far: the index the engine hands over for a for-loop; for a while-loop the one carried
+               integer, counted from its value on entry
+    Invariant at the loop head: either nothing has been evaluated yet (count = 0, step above the tolerance), or 1 <= count <= maxiter (so at most
+    maxiter + 1 evaluations in all) and density = rho_cb(conc*M/(density - step)), i.e. `relation(density, density - step)`.
+    A loop whose carried variables cannot be given these roles raises here, which the engine reports as 'the loop invariant does not fit the loop
+    as written' (undecided), never as a behaviour of the code.  A wrong guess of the roles cannot prove anything false: init/pres are obligations of
+    their own and the final obligation of the harness only takes `witness` (the step at the loop head) as the witness of an existential.
+    Returns (inv, shapes_by_kind, witness); `num` maps a carried value to the plain number it stands for (si_value with units)."""
+    from pyvc.qmodel import Quantity
+    from pyvc.sym import fresh_name
+    import z3
+    roles, witness = {}, []
+
+    def is_integer(x):
+        return (isinstance(x, int) and not isinstance(x, bool)) or (isinstance(x, Sym) and x.kind == "int")
+
+    def is_number(x):
+        return isinstance(x, float) or (isinstance(x, Sym) and x.kind == "real")
+
+    def find_roles(env, i):
+        entry = {n: env[n] for n in env["@carried"]}
+        numbers = {n: num(x) for n, x in entry.items() if not is_integer(x) and is_number(num(x))}
+        steps = [n for n, x in numbers.items() if isinstance(x, float) and math.isinf(x)]
+        densities = [n for n, x in numbers.items() if not (isinstance(x, float) and (math.isinf(x) or math.isnan(x)))]
+        if len(steps) != 1 or len(densities) != 1 or len(numbers) != 2:
+            raise ValueError("fixed-point iteration: expected one carried iterate and one carried step that is infinite on entry, found %r" % (sorted(entry),))
+        roles["step"], roles["density"] = steps[0], densities[0]
+        if i is None:                            # while-loop: the evaluations are counted by the code
+            counters = [n for n, x in entry.items() if is_integer(x)]
+            if len(counters) != 1:
+                raise ValueError("fixed-point iteration: expected one carried integer counting the evaluations, found %r" % (counters,))
+            roles["count"], roles["count0"] = counters[0], entry[counters[0]]
+
+    def inv(env, i, seq):
+        if not roles:
+            find_roles(env, i)
+        count = i if i is not None else env[roles["count"]] - roles["count0"]
+        rho, d = num(env[roles["density"]]), num(env[roles["step"]])
+        if isinstance(d, float):                 # the state on entry: an infinite step exceeds every tolerance
+            return d == float("inf") and count == 0
+        witness[:] = [d]                         # ghost: the last step of the iteration, used as the witness of the existential in the harness
+        later = (count >= 1) & (count <= maxiter) & (rho - d != 0) & relation(rho, rho - d)
+        return ((count == 0) & (atol < abs(d))) | later
+
+    def shapes_by_kind(name, old):
+        # a loop-carried quantity stays a quantity in the units it has on entry (kg/m3), of any magnitude; everything else: the engine's default
+        if isinstance(old, Quantity):
+            return Quantity(Sym(z3.Real(fresh_name(name))), old.u, old.t)
+        return None
+    return inv, shapes_by_kind, witness
+
+
 @harness("C19", "density_from_concentration", functions=["chempy.properties.sulfuric_acid_density_myhre_1998:density_from_concentration"], div_mode="assume", samples=0)
 def _(v):
     """'the inverse helpers (… density from concentration) invert the forward ones', for ANY forward correlation rho_cb (an uninterpreted function)
@@ -479,19 +537,14 @@ def _(v):
     conc, T, M, atol = v.real("conc", lo=0), v.real("T", lo=200), v.real("M", lo=1e-3), v.real("atol", lo=1e-9)
     maxiter = v.int("maxiter", lo=1, hi=1000)
     f = z3.Function("rho_forward", z3.RealSort(), z3.RealSort(), z3.RealSort())
-    asked, witness = [], []
+    asked = []
 
     def rho_cb(w, T_, units=None, warn=None):
         asked.append((T_, units, warn))
         return Sym(f(to_z3(w), to_z3(T_)))
 
-    def inv(env, i, seq):
-        it, rho, d = env["iter_idx"], env["rho"], env["delta_rho"]
-        if isinstance(d, float):                 # the state before the first iteration: delta_rho = inf exceeds every tolerance
-            return d == float("inf") and it == 0
-        witness[:] = [d]                         # ghost: the last step of the iteration, used as the witness of the existential below
-        later = (it >= 1) & (it <= maxiter + 1) & (rho - d != 0) & wrap(to_z3(rho) == f(to_z3(conc * M / (rho - d)), to_z3(T)))
-        return ((it == 0) & (atol < abs(d))) | later
+    # the loop state by role (iterate / last step / number of evaluations), whatever the code calls it and whether it counts by hand or with a for-loop
+    inv, _, witness = _fixed_point_iteration_invariant(lambda rho, prev: wrap(to_z3(rho) == f(to_z3(conc * M / prev), to_z3(T))), atol, maxiter)
     v.invariant(g, 0, inv)
     out = v.run(g, conc, T, M, rho_cb, None, atol, maxiter)
     if out.returned:
@@ -513,15 +566,15 @@ def _(v):
     mass fraction conc*M/rho (a pure number) and answers in kg/m3.  Whenever a density is returned it has the dimension of a density and is, in SI,
     a fixed point of the forward correlation within the tolerance; the callback gets the caller's temperature and the caller's units object"""
     import z3
-    from pyvc.sym import Sym, to_z3, wrap, fresh_name
-    from pyvc.qmodel import Quantity, si_value
+    from pyvc.sym import Sym, to_z3, wrap
+    from pyvc.qmodel import si_value
     from chempy.properties.sulfuric_acid_density_myhre_1998 import density_from_concentration as g
     from chempy.util import NoConvergence
     conc, T, M, atol = v.real("conc", lo=0), v.real("T", lo=200), v.real("M", lo=1e-3), v.real("atol", lo=1e-9)   # SI: mol/m3, K, kg/mol, kg/m3
     maxiter = v.int("maxiter", lo=1, hi=1000)
     u, table = units_env(v)
     f = z3.Function("rho_forward", z3.RealSort(), z3.RealSort(), z3.RealSort())
-    asked, witness, fractions_with_a_dimension = [], [], []
+    asked, fractions_with_a_dimension = [], []
     Tq = T * u.K
 
     def rho_cb(w, T_, units=None, warn=None):
@@ -530,16 +583,9 @@ def _(v):
             fractions_with_a_dimension.append(w)
         return Sym(f(to_z3(si_value(w)), to_z3(si_value(T_)))) * u.kg / u.m ** 3
 
-    def inv(env, i, seq):
-        it, rho, d = env["iter_idx"], si_value(env["rho"]), si_value(env["delta_rho"])
-        if isinstance(d, float):                 # the state before the first iteration: delta_rho = inf kg/m3 exceeds every tolerance
-            return d == float("inf") and it == 0
-        witness[:] = [d]
-        later = (it >= 1) & (it <= maxiter + 1) & (rho - d != 0) & wrap(to_z3(rho) == f(to_z3(conc * M / (rho - d)), to_z3(T)))
-        return ((it == 0) & (atol < abs(d))) | later
-    # the loop-carried densities are quantities in the units they have on entry (kg/m3), of any magnitude
-    same_units = lambda n, old: Quantity(Sym(z3.Real(fresh_name(n))), old.u, old.t)
-    v.invariant(g, 0, inv, shapes={"rho": same_units, "delta_rho": same_units})
+    # the loop state by role, in SI; the loop-carried quantities keep the units they have on entry (kg/m3) and may have any magnitude
+    inv, same_units, witness = _fixed_point_iteration_invariant(lambda rho, prev: wrap(to_z3(rho) == f(to_z3(conc * M / prev), to_z3(T))), atol, maxiter, num=si_value)
+    v.invariant(g, 0, inv, shapes=same_units)
     out = v.run(g, (conc / 1000) * u.molar, Tq, (M * 1000) * u.g / u.mol, rho_cb, u, (atol / 1000) * u.g / u.cm ** 3, maxiter)
     if out.returned:
         r, step = si_value(out.value), witness[0]
